@@ -647,6 +647,7 @@ class Exec:
 
     def op_fault(self, a):
         self.world.app_log.fault[a['event']] += 1
+        self.world.app_log.fault_exc[a['event']].append(a.get('exc', 'RuntimeError'))
 
     def op_vanish(self, a):
         s = self.sess(a['s'])
@@ -977,7 +978,9 @@ class Drawer:
         return {'op': 'vanish', 's': self.session_index()}
 
     def a_fault(self):
-        return {'op': 'fault', 'event': self.draw(st.sampled_from(['message', 'disconnect']))}
+        return {'op': 'fault', 'event': self.draw(st.sampled_from(['message', 'disconnect'])),
+                'exc': self.draw(st.sampled_from(['RuntimeError', 'RuntimeError', 'TypeError',
+                                                  'KeyError', 'OSError']))}
 
     def a_advance(self):
         d = self.draw
